@@ -6,8 +6,8 @@ import (
 	astits "github.com/asticode/go-astits"
 )
 
-// C05 — per PID the continuity counters of consecutive payload packets step by one modulo 16 within a stream's
-// lifetime, and no counter value is consumed by a call that emits no payload packet on that PID.
+// C05 — per PID the continuity counters of consecutive payload packets step by one modulo 16 over the whole history
+// (a PID that is removed and added again carries on), and no counter value is consumed by a call that emits no payload packet on that PID.
 // Oracle: scan the writer's bytes per PID; compare the counters exposed by VerifState before and after every call.
 
 func init() { props["C05"] = muxProp{5, genC05, oracleC05} }
@@ -15,8 +15,8 @@ func init() { props["C05"] = muxProp{5, genC05, oracleC05} }
 func genC05(r *Rng, tier string, emit func(string, Tok)) {
 	muxGenAll(r, tier, muxMix{
 		random: scale(tier, 120, 600), maxLen: scale(tier, 60, 400),
-		wrap: scale(tier, 6, 60), bigPMT: scale(tier, 25, 250), many: scale(tier, 80, 1000), ood: scale(tier, 25, 250),
-		exhaustive: scale(tier, 3, 5),
+		wrap: scale(tier, 6, 60), bigPMT: scale(tier, 25, 250), many: scale(tier, 80, 1000), readd: scale(tier, 60, 600), ood: scale(tier, 25, 250),
+		exhaustive: scale(tier, 3, 4), sweep: 0xf20,
 	}, emit)
 }
 
@@ -30,7 +30,7 @@ func ccOf(st astits.VerifMuxerState, pid uint16) (int, bool) {
 }
 
 func oracleC05(period int, ops []muxOp, calls []muxCall) string {
-	last := map[uint16]int{}     // PID -> counter of the last payload packet of the current lifetime
+	last := map[uint16]int{}     // PID -> counter of the last payload packet emitted on it
 	tainted := map[uint16]bool{} // 13-bit PIDs shared by two sources (explicit PIDs outside the domain, S2)
 	prev := astits.VerifMuxerState{PATCC: 16, PMTCC: 16}
 	for i, o := range ops {
@@ -40,6 +40,11 @@ func oracleC05(period int, ops []muxOp, calls []muxCall) string {
 		at := fmt.Sprintf("call %d (%s): ", i, opName(o))
 		if o.kind == opAdd && c.code == -1 && o.es.ElementaryPID != 0 && reservedPID(o.es.ElementaryPID) {
 			tainted[o.es.ElementaryPID&0x1fff] = true
+		}
+		if o.kind == opAdd && c.code == -1 && o.es.ElementaryPID == 0 && len(c.st.PMTPIDs) > 0 {
+			if pid := c.st.PMTPIDs[len(c.st.PMTPIDs)-1]; reservedPID(pid) {
+				return at + fmt.Sprintf("PID %#x assigned automatically is the PID of a table: two continuity counters would share it", pid)
+			}
 		}
 		if o.kind == opData && !muxDataInDomain(o.d) {
 			// outside the domain (S1: writer-internal adaptation field members set by the caller, nil PES or header,
@@ -96,8 +101,15 @@ func oracleC05(period int, ops []muxOp, calls []muxCall) string {
 				return at + w
 			}
 		}
-		if o.kind == opRemove && c.code == -1 {
-			delete(last, o.pid&0x1fff) // Remove then Add of the same PID starts a new lifetime
+		// Remove then Add of the same PID: the stream carries on with its counter (last is kept), and the context of a
+		// PID that is added again starts from the counter of the last payload packet emitted on it
+		if o.kind == opAdd && c.code == -1 && len(c.st.PMTPIDs) > 0 {
+			pid := c.st.PMTPIDs[len(c.st.PMTPIDs)-1]
+			if l, ok := last[pid&0x1fff]; ok && !tainted[pid&0x1fff] && pid < 0x2000 {
+				if a, ok := ccOf(c.st, pid); ok && a != l {
+					return at + fmt.Sprintf("PID %#x is added again with counter %d, the last payload packet emitted on it carries %d", pid, a, l)
+				}
+			}
 		}
 	}
 	return ""
